@@ -1461,3 +1461,590 @@ Proof.
   eapply scan_loop_nf; [| | |exact H]; auto. unfold fuel_of, zlen in *. lia.
 Qed.
 End StmtNF.
+
+(** * Crash freedom: no checked slice ever leaves its bounds *)
+Definition wf (s : scanner) : Prop :=
+  0 <= pos s <= zlen (input s) /\ zlen (input s) <= zlen (src s) /\
+  total s = zlen (src s) - zlen (input s) + pos s.
+
+(** [safe r P]: [r] is not [Panic], and [P] holds of an [Ok] result. *)
+Definition safe {A} (r : res A) (P : A -> Prop) : Prop :=
+  match r with Ok a => P a | Err _ => True | Panic => False | OutOfFuel => True end.
+
+Lemma safe_bind {A B} (x : res A) (f : A -> res B) (P : A -> Prop) (Q : B -> Prop) :
+  safe x P -> (forall a, x = Ok a -> P a -> safe (f a) Q) -> safe (bind x f) Q.
+Proof. destruct x; simpl; auto. Qed.
+Lemma safe_weaken {A} (r : res A) (P Q : A -> Prop) : safe r P -> (forall a, r = Ok a -> P a -> Q a) -> safe r Q.
+Proof. destruct r; simpl; auto. Qed.
+Lemma safe_ok {A} (r : res A) P a : safe r P -> r = Ok a -> P a.
+Proof. intros H ->. exact H. Qed.
+
+Lemma slice_from_safe s p : 0 <= p <= zlen s -> safe (slice_from s p) (fun r => r = skipn (Z.to_nat p) s).
+Proof.
+  intros H. unfold slice_from. destruct (p <? 0) eqn:E1; [bnorm; lia|]. destruct (zlen s <? p) eqn:E2; [bnorm; lia|].
+  simpl. reflexivity.
+Qed.
+Lemma slice_to_safe s p : 0 <= p <= zlen s -> safe (slice_to s p) (fun r => r = firstn (Z.to_nat p) s).
+Proof.
+  intros H. unfold slice_to. destruct (p <? 0) eqn:E1; [bnorm; lia|]. destruct (zlen s <? p) eqn:E2; [bnorm; lia|].
+  simpl. reflexivity.
+Qed.
+Lemma slice_safe s p q : 0 <= p <= q -> q <= zlen s -> safe (slice s p q) (fun _ => True).
+Proof.
+  intros H1 H2. unfold slice. destruct (p <? 0) eqn:E1; [bnorm; lia|]. destruct (q <? p) eqn:E2; [bnorm; lia|].
+  destruct (zlen s <? q) eqn:E3; [bnorm; lia|]. simpl. exact I.
+Qed.
+Lemma index_safe s i : 0 <= i < zlen s -> safe (index s i) (fun _ => True).
+Proof.
+  intros H. unfold index. destruct (i <? 0) eqn:E1; [bnorm; lia|]. destruct (zlen s <=? i) eqn:E2; [bnorm; lia|].
+  simpl. destruct (nth_error s (Z.to_nat i)) eqn:E; [exact I|].
+  apply nth_error_None in E. unfold zlen in H. lia.
+Qed.
+
+Lemma fail_safe {A} s p0 k (P : A -> Prop) : wf s -> 0 <= p0 <= zlen (input s) -> safe (@fail A s p0 k) P.
+Proof.
+  intros (W1 & W2 & W3) Hp. unfold fail, error_at.
+  pose proof (slice_to_safe (src s) (zlen (src s) - zlen (input s) + p0) ltac:(lia)) as Hs.
+  destruct (slice_to (src s) _); simpl in *; auto.
+Qed.
+Lemma nfail_safe s p0 k (P : scanner -> Prop) : wf s -> 0 <= p0 <= zlen (input s) -> P s ->
+  safe (nfail s p0 k) (fun r => P (fst r)).
+Proof.
+  intros (W1 & W2 & W3) Hp HP. unfold nfail, error_at.
+  pose proof (slice_to_safe (src s) (zlen (src s) - zlen (input s) + p0) ltac:(lia)) as Hs.
+  destruct (slice_to (src s) _); simpl in *; auto.
+Qed.
+
+Lemma wf_addPos s k : wf s -> 0 <= pos s + k <= zlen (input s) -> wf (addPos s k).
+Proof. intros (W1 & W2 & W3) H. unfold wf, addPos; simpl. repeat split; lia. Qed.
+Lemma wf_set_width s w : wf s -> wf (set_width s w).
+Proof. intros W. exact W. Qed.
+
+(** [next] never fails on a well-formed scanner. *)
+Lemma next_safe s : wf s -> exists r s', next s = Ok (r, s') /\ wf s' /\ src s' = src s.
+Proof.
+  intros W. pose proof W as (W1 & W2 & W3). unfold next. destruct (zlen (input s) <=? pos s) eqn:E.
+  - exists None, s. split; [reflexivity|split; [exact W|reflexivity]].
+  - bnorm. unfold slice_from. destruct (pos s <? 0) eqn:E1; [bnorm; lia|].
+    destruct (zlen (input s) <? pos s) eqn:E2; [bnorm; lia|].
+    remember (skipn (Z.to_nat (pos s)) (input s)) as rest eqn:Hs.
+    simpl. destruct (decode_rune rest) as [r w] eqn:D.
+    assert (rest <> []) as Hne.
+    { intros ->. symmetry in Hs. apply (f_equal (@length N)) in Hs. rewrite skipn_length in Hs.
+      unfold zlen in *. simpl in Hs. lia. }
+    destruct (decode_rune_spec _ _ _ D Hne) as [Hw _].
+    exists (Some r), (addPos (set_width s w) w). split; [reflexivity|]. split; [|reflexivity].
+    apply wf_addPos; [exact W|]. simpl. rewrite Hs, zlen_skipn in Hw by lia. lia.
+Qed.
+Lemma pick_safe s : wf s -> exists r, pick s = Ok r.
+Proof. intros W. destruct (next_safe s W) as (r & s' & H & _). unfold pick. rewrite H. simpl. eauto. Qed.
+
+Ltac use_next s W :=
+  let r := fresh "r" in let s1 := fresh "s" in let Hn := fresh "Hn" in let W1 := fresh "W" in let Hsrc := fresh "Hsrc" in
+  destruct (next_safe s W) as (r & s1 & Hn & W1 & Hsrc); rewrite Hn; cbn [bind].
+
+Lemma skipQuote_loop_safe f : forall s p0 q e, wf s -> 0 <= p0 <= zlen (input s) ->
+  safe (skipQuote_loop f s p0 q e) (fun s' => wf s' /\ src s' = src s).
+Proof.
+  induction f as [|f IH]; intros s p0 q e W Hp; simpl; [exact I|].
+  destruct (next_safe s W) as (r & s1 & Hn & W1 & Hsrc). rewrite Hn. cbn [bind].
+  pose proof (next_adv _ _ _ Hn) as (A1 & _).
+  destruct r as [c|].
+  - destruct (N.eqb c 92 && e).
+    + destruct (next_safe s1 W1) as (r2 & s2 & Hn2 & W2 & Hsrc2). rewrite Hn2. cbn [bind snd].
+      pose proof (next_adv _ _ _ Hn2) as (A2 & _).
+      eapply safe_weaken; [apply IH; [exact W2|rewrite A2, A1; exact Hp]|].
+      intros a _ [? ?]. split; [auto|congruence].
+    + destruct (N.eqb c q); [simpl; auto|].
+      eapply safe_weaken; [apply IH; [exact W1|rewrite A1; exact Hp]|]. intros a _ [? ?]. split; [auto|congruence].
+  - apply fail_safe; [exact W1|rewrite A1; exact Hp].
+Qed.
+Lemma skipQuote_safe o f s q : wf s -> safe (skipQuote o f s q) (fun s' => wf s' /\ src s' = src s).
+Proof.
+  intros W. pose proof W as (W1 & W2 & W3). unfold skipQuote.
+  eapply safe_bind with (P := fun _ => True).
+  - destruct (BackslashEscapes o); [exact I|]. destruct (EscapedStringExt o && (0 <? pos s)) eqn:E; [|exact I].
+    bnorm. eapply safe_bind; [apply index_safe; lia|]. intros; exact I.
+  - intros a _ _. apply skipQuote_loop_safe; [exact W|lia].
+Qed.
+
+Lemma skipDollarQuote_loop_safe f : forall s m, wf s ->
+  safe (skipDollarQuote_loop f s m) (fun s' => wf s' /\ src s' = src s).
+Proof.
+  induction f as [|f IH]; intros s m W; simpl; [exact I|].
+  destruct (next_safe s W) as (r & s1 & Hn & W1 & Hsrc). rewrite Hn. cbn [bind].
+  destruct r as [c|].
+  - assert (1 <= pos s1) as Hp1.
+    { apply next_some in Hn as (rest & w & H1 & H2 & H3 & -> & H4).
+      destruct (decode_rune_spec _ _ _ H3 H2) as [Hw _]. simpl. lia. }
+    destruct (N.eqb c 36).
+    + pose proof W1 as (V1 & V2 & V3).
+      eapply safe_bind; [apply slice_from_safe; lia|]. intros tl _ ->.
+      destruct (has_prefix _ m) eqn:Ep.
+      * simpl. split; [|exact Hsrc]. apply wf_addPos; [exact W1|].
+        apply has_prefix_app in Ep as [r Hr]. apply (f_equal zlen) in Hr.
+        rewrite zlen_skipn, zlen_app in Hr by lia. pose proof (zlen_nonneg r). pose proof (zlen_nonneg m). lia.
+      * eapply safe_weaken; [apply IH; exact W1|]. intros a _ [? ?]. split; [auto|congruence].
+    + eapply safe_weaken; [apply IH; exact W1|]. intros a _ [? ?]. split; [auto|congruence].
+  - destruct (delim s1); [apply fail_safe; [exact W1|apply W1]|simpl; auto].
+Qed.
+Lemma skipDollarQuote_safe f s : wf s -> 1 <= pos s ->
+  safe (skipDollarQuote f s) (fun s' => wf s' /\ src s' = src s).
+Proof.
+  intros W Hp. pose proof W as (W1 & W2 & W3). unfold skipDollarQuote.
+  eapply safe_bind; [apply slice_from_safe; lia|]. intros tl _ ->.
+  destruct (re_dollar_quote _) as [n|] eqn:E; [|apply fail_safe; [exact W|lia]].
+  eapply safe_weaken; [apply skipDollarQuote_loop_safe|intros a _ [? ?]; split; [auto|simpl in *; congruence]].
+  apply wf_addPos; [exact W|].
+  apply re_dollar_quote_some in E as [Hn Hne].
+  set (tl := skipn (Z.to_nat (pos s - 1)) (input s)) in *.
+  assert (1 <= zlen (firstn n tl) <= zlen tl) as Hm.
+  { unfold zlen. rewrite firstn_length. destruct tl; [congruence|simpl]. lia. }
+  unfold tl in Hm. rewrite (zlen_skipn (input s) (pos s - 1)) in Hm by lia. fold tl in Hm. lia.
+Qed.
+
+Lemma to_eol_loop_safe f : forall s r, wf s -> safe (to_eol_loop f s r) (fun s' => wf s' /\ src s' = src s /\ input s' = input s /\ pos s <= pos s').
+Proof.
+  induction f as [|f IH]; intros s r W; simpl; [exact I|].
+  destruct r as [c|]; [|simpl; split; [exact W|repeat split; lia]].
+  destruct (N.eqb c 10); [simpl; split; [exact W|repeat split; lia]|].
+  destruct (next_safe s W) as (r1 & s1 & Hn & W1 & Hsrc). rewrite Hn. cbn [bind snd fst].
+  pose proof (next_adv _ _ _ Hn) as (A1 & _ & _ & A4).
+  eapply safe_weaken; [apply IH; exact W1|]. intros a _ (? & ? & ? & ?). split; [assumption|split; [congruence|split; [congruence|lia]]].
+Qed.
+
+Lemma wf_skipSpaces s : wf s -> pos s = 0 -> wf (skipSpaces s).
+Proof.
+  intros (W1 & W2 & W3) Hp. destruct (trim_left_decomp (input s)) as (sp & Hsp & _ & _).
+  assert (zlen (input s) = zlen sp + zlen (trim_left_space (input s))) as Hz by (rewrite Hsp at 1; apply zlen_app).
+  pose proof (zlen_nonneg sp). pose proof (zlen_nonneg (trim_left_space (input s))).
+  unfold wf, skipSpaces; simpl. repeat split; lia.
+Qed.
+
+Lemma comment_safe s l r : wf s -> safe (comment s l r) (fun s' => wf s' /\ src s' = src s).
+Proof.
+  intros W. pose proof W as (W1 & W2 & W3). unfold comment.
+  eapply safe_bind; [apply slice_from_safe; lia|]. intros tl _ ->.
+  destruct (index_of _ r) as [i|] eqn:Ei; [|simpl; auto].
+  pose proof (index_of_spec _ _ _ Ei) as [Hpre Hi]. apply has_prefix_app in Hpre as [rr Hrr].
+  apply (f_equal zlen) in Hrr. rewrite zlen_app in Hrr. unfold zlen in Hrr at 1. rewrite skipn_length in Hrr.
+  fold (zlen (skipn (Z.to_nat (pos s)) (input s))) in *.
+  assert (zlen (skipn (Z.to_nat (pos s)) (input s)) = zlen (input s) - pos s) as Hzs by (apply zlen_skipn; lia).
+  unfold zlen in Hzs at 1. pose proof (zlen_nonneg rr). pose proof (zlen_nonneg r).
+  assert (wf (addPos s (Z.of_nat i + zlen r))) as Wa by (apply wf_addPos; [exact W|lia]).
+  destruct (negb _); [simpl; auto|].
+  pose proof Wa as (U1 & U2 & U3).
+  eapply safe_bind; [apply slice_to_safe; lia|]. intros c _ _.
+  eapply safe_bind; [apply slice_from_safe; lia|]. intros rest _ Hrest.
+  assert (zlen rest = zlen (input s) - pos (addPos s (Z.of_nat i + zlen r))) as Hzr.
+  { rewrite Hrest. apply zlen_skipn. exact U1. }
+  simpl. match goal with |- context[skipSpaces (if ?b then _ else _)] => destruct b end;
+  (split; [apply wf_skipSpaces; [|reflexivity]; unfold wf; simpl in *; repeat split; try lia|reflexivity]).
+Qed.
+
+Lemma emit_safe o s t : wf s -> safe (emit o s t) (fun r => wf (snd r) /\ src (snd r) = src s /\ pos (snd r) = 0 /\ delim (snd r) = delim s).
+Proof.
+  intros W. pose proof W as (W1 & W2 & W3). unfold emit.
+  eapply safe_bind; [apply slice_from_safe; lia|]. intros rest _ Hrest.
+  assert (zlen rest = zlen (input s) - pos s) as Hzr by (rewrite Hrest; apply zlen_skipn; exact W1).
+  simpl. unfold wf; simpl. repeat split; try lia.
+Qed.
+
+Lemma delim_of_arg_safe raw : safe (delim_of_arg raw) (fun _ => True).
+Proof.
+  unfold delim_of_arg. destruct ((1 <? zlen (trim_space raw)) && _ && _) eqn:E; [|exact I].
+  bnorm. eapply safe_bind; [apply slice_safe; lia|]. intros; exact I.
+Qed.
+
+Lemma delimCmd_safe o f s : wf s -> 9 <= pos s ->
+  safe (delimCmd o f s) (fun s' => wf s' /\ src s' = src s /\ (pos s' = 0 \/ s' = s)).
+Proof.
+  intros W Hp. unfold delimCmd.
+  destruct (pick_safe s W) as (r & Hr). rewrite Hr. cbn [bind].
+  destruct (negb (rune_is r 32)); [simpl; auto|].
+  cbn [bind].
+  eapply safe_bind; [apply to_eol_loop_safe; exact W|]. intros s1 _ (W1 & S1 & I1 & P1).
+  pose proof W1 as (V1 & V2 & V3).
+  eapply safe_bind; [apply slice_safe; change (zlen S_DELIMITER) with 9; lia|]. intros raw _ _.
+  eapply safe_bind; [apply delim_of_arg_safe|]. intros d' _ _.
+  unfold setDelim. destruct d' as [|d1 d2]; [exact I|]. cbn [bind].
+  eapply safe_bind; [apply slice_to_safe; simpl; lia|]. intros txt _ _.
+  eapply safe_bind; [apply (emit_safe o (set_delim s1 (unescape_delim (d1 :: d2)))); exact W1|].
+  intros es _ (E1 & E2 & E3 & E4). simpl. split; [exact E1|]. split; [simpl in E2; congruence|left; exact E3].
+Qed.
+
+Lemma init_safe s0 inp :
+  safe (init s0 inp) (fun s => wf s /\ pos s = 0 /\ src s = inp /\ delim s <> []).
+Proof.
+  unfold init. destruct (directive_delimiter inp) as [d|].
+  - unfold setDelim. destruct d as [|d1 d2]; [exact I|]. cbn [bind].
+    destruct (index_of inp NL) as [i|].
+    + simpl. unfold wf; simpl. pose proof (zlen_nonneg (skipn (S i) inp)).
+      assert (zlen (skipn (S i) inp) <= zlen inp) by (unfold zlen; rewrite skipn_length; lia).
+      repeat split; try lia. apply unescape_delim_nonnil. discriminate.
+    + apply fail_safe; [unfold wf; simpl; pose proof (zlen_nonneg inp); lia|simpl; pose proof (zlen_nonneg inp); lia].
+  - simpl. unfold wf; simpl. pose proof (zlen_nonneg inp). repeat split; try lia. discriminate.
+Qed.
+
+Lemma skip_s_len s n r : skip_s s = (n, r) -> length s = (n + length r)%nat.
+Proof.
+  revert n r; induction s as [|a t IH]; intros n r; simpl.
+  - intros H; inversion H; reflexivity.
+  - destruct (re_s a); [|intros H; inversion H; reflexivity].
+    destruct (skip_s t) as [n0 r0]. intros H; inversion H; subst. rewrite (IH _ _ eq_refl). reflexivity.
+Qed.
+Lemma skip_s1_len s n r : skip_s1 s = Some (n, r) -> length s = (n + length r)%nat.
+Proof.
+  unfold skip_s1. destruct (skip_s s) as [[|n0] r0] eqn:E; [discriminate|]. intros H; inversion H; subst.
+  apply skip_s_len; exact E.
+Qed.
+Lemma has_prefix_ci_len s w : has_prefix_ci s w = true -> (length w <= length s)%nat.
+Proof.
+  revert s; induction w as [|b w IH]; intros s; simpl; [lia|].
+  destruct s as [|a s]; [discriminate|]. rewrite andb_true_iff. intros [_ H]. apply IH in H. simpl. lia.
+Qed.
+Lemma word_ci_len2 w s n r : word_ci w s = Some (n, r) -> length s = (n + length r)%nat.
+Proof.
+  unfold word_ci. destruct (has_prefix_ci s w) eqn:E; [|discriminate]. intros H; inversion H; subst.
+  apply has_prefix_ci_len in E. rewrite skipn_length. lia.
+Qed.
+Lemma re_begin_len s n : re_begin s = Some n -> (n <= length s)%nat.
+Proof.
+  unfold re_begin. destruct (skip_s s) as [n0 r0] eqn:E0. destruct (word_ci W_BEGIN r0) as [[n1 r1]|] eqn:E1; [|discriminate].
+  destruct (skip_s1 r1) as [[n2 r2]|] eqn:E2; [|discriminate]. intros H; inversion H.
+  apply skip_s_len in E0. apply word_ci_len2 in E1. apply skip_s1_len in E2. lia.
+Qed.
+Lemma re_begin_word_len w s n : re_begin_word w s = Some n -> (n <= length s)%nat.
+Proof.
+  unfold re_begin_word. destruct (skip_s s) as [n0 r0] eqn:E0. destruct (word_ci W_BEGIN r0) as [[n1 r1]|] eqn:E1; [|discriminate].
+  destruct (skip_s1 r1) as [[n2 r2]|] eqn:E2; [|discriminate].
+  destruct (word_ci w r2) as [[n3 r3]|] eqn:E3; [|discriminate].
+  destruct (skip_s1 r3) as [[n4 r4]|] eqn:E4; [|discriminate]. intros H; inversion H.
+  apply skip_s_len in E0. apply word_ci_len2 in E1. apply skip_s1_len in E2.
+  apply word_ci_len2 in E3. apply skip_s1_len in E4. lia.
+Qed.
+
+Section NestedSafe.
+Variable o : opts.
+Variable nested : scanner -> res (scanner * option Stmt).
+Hypothesis nested_safe : forall b, wf b -> pos b = 0 -> delim b <> [] ->
+  safe (nested b) (fun r => wf (fst r) /\ src (fst r) = src b /\ pos (fst r) = 0 /\ delim (fst r) <> []).
+Hypothesis noGo : GoCommand o = false.
+Hypothesis noTry : MatchBeginTryCatch o = false.
+
+Definition same (s s' : scanner) : Prop := wf s' /\ src s' = src s /\ input s' = input s /\ pos s <= pos s'.
+
+Lemma total_bound b : wf b -> pos b = 0 -> 0 <= total b <= zlen (src b).
+Proof. intros (W1 & W2 & W3) Hp. pose proof (zlen_nonneg (input b)). lia. Qed.
+
+Lemma atomic_loop_safe f : forall s body, wf s -> wf body -> pos body = 0 -> delim body <> [] ->
+  zlen (src body) <= zlen (input s) - pos s ->
+  safe (atomic_loop nested f s body) (fun r => same s (fst r)).
+Proof.
+  induction f as [|f IH]; intros s body W Wb Hp Hd Hl; simpl; [exact I|].
+  pose proof (nested_safe body Wb Hp Hd) as Hn. pose proof W as (W1 & W2 & W3).
+  assert (same s s) as Hss by (unfold same; repeat split; auto; lia).
+  destruct (nested body) as [[body' [st|]]|e| |]; simpl in Hn; try contradiction.
+  - destruct Hn as (Wb' & Sb' & Pb' & Db').
+    destruct (re_end (Text st)).
+    + simpl. pose proof (total_bound _ Wb' Pb') as Tb. rewrite Sb' in Tb. unfold same; simpl. split; [apply wf_addPos; [exact W|]; lia|].
+      repeat split; lia.
+    + apply IH; auto. congruence.
+  - apply (nfail_safe s (pos s) EEofBody (same s)); auto.
+  - apply (nfail_safe s (pos s) EScanBody (same s)); auto.
+  - exact I.
+Qed.
+Lemma begin_loop_safe f : forall s body, wf s -> wf body -> pos body = 0 -> delim body <> [] ->
+  zlen (src body) <= zlen (input s) - pos s ->
+  safe (begin_loop o nested f s body) (fun r => same s (fst r)).
+Proof.
+  induction f as [|f IH]; intros s body W Wb Hp Hd Hl; simpl; [exact I|].
+  pose proof (nested_safe body Wb Hp Hd) as Hn. pose proof W as (W1 & W2 & W3).
+  assert (same s s) as Hss by (unfold same; repeat split; auto; lia).
+  destruct (nested body) as [[body' [st|]]|e| |]; simpl in Hn; try contradiction.
+  - destruct Hn as (Wb' & Sb' & Pb' & Db').
+    assert (same s (addPos s (total body'))) as Hadd.
+    { pose proof (total_bound _ Wb' Pb') as Tb. rewrite Sb' in Tb. unfold same; simpl. split; [apply wf_addPos; [exact W|]; lia|].
+      repeat split; lia. }
+    destruct (re_end (Text st)).
+    + destruct (_ || _); [exact Hadd|apply IH; auto; congruence].
+    + destruct (_ && _); [exact Hadd|apply IH; auto; congruence].
+  - apply (nfail_safe s (pos s) EEofCompound (same s)); auto.
+  - apply (nfail_safe s (pos s) EScanCompound (same s)); auto.
+  - exact I.
+Qed.
+
+Lemma same_trans a b c : same a b -> same b c -> same a c.
+Proof. unfold same. intros (?&?&?&?) (?&?&?&?). split; [assumption|split; [congruence|split; [congruence|lia]]]. Qed.
+
+Lemma block_safe (re : bytes -> option nat) (loop : nat -> scanner -> scanner -> nres) et kmiss f s :
+  (forall t n, re t = Some n -> (1 <= n <= length t)%nat) ->
+  (forall f s body, wf s -> wf body -> pos body = 0 -> delim body <> [] ->
+     zlen (src body) <= zlen (input s) - pos s -> safe (loop f s body) (fun r => same s (fst r))) ->
+  wf s -> 1 <= pos s ->
+  safe (do tl <- slice_from (input s) (pos s - 1);
+        match re tl with
+        | None => nfail s (pos s) kmiss
+        | Some n =>
+          let s1 := addPos s (Z.of_nat n - 1) in
+          do bi <- slice_from (input s1) (pos s1);
+          match init (new_scanner et) bi with
+          | Ok body => loop f s1 body
+          | Err e => Ok (s1, Some e)
+          | Panic => Panic
+          | OutOfFuel => OutOfFuel
+          end
+        end) (fun r => same s (fst r)).
+Proof.
+  intros Hre Hloop W Hp. pose proof W as (W1 & W2 & W3).
+  assert (same s s) as Hss by (unfold same; repeat split; auto; lia).
+  eapply safe_bind; [apply slice_from_safe; lia|]. intros tl _ Htl.
+  destruct (re tl) as [n|] eqn:E; [|apply (nfail_safe s (pos s) kmiss (same s)); auto; lia].
+  apply Hre in E. assert (zlen tl = zlen (input s) - (pos s - 1)) as Hzt by (rewrite Htl; apply zlen_skipn; lia).
+  unfold zlen in Hzt at 1.
+  assert (same s (addPos s (Z.of_nat n - 1))) as Hs1.
+  { unfold same; simpl. split; [apply wf_addPos; [exact W|]; lia|]. repeat split; lia. }
+  cbv zeta. destruct Hs1 as (Ws1 & Ss1 & Is1 & Ps1). pose proof Ws1 as (U1 & U2 & U3).
+  eapply safe_bind; [apply slice_from_safe; exact U1|]. intros bi _ Hbi.
+  assert (zlen bi = zlen (input (addPos s (Z.of_nat n - 1))) - pos (addPos s (Z.of_nat n - 1))) as Hzb
+    by (rewrite Hbi; apply zlen_skipn; exact U1).
+  pose proof (init_safe (new_scanner et) bi) as Hi.
+  destruct (init (new_scanner et) bi) as [body|e| |]; simpl in Hi; try contradiction.
+  - destruct Hi as (Wb & Pb & Sb & Db).
+    eapply safe_weaken; [apply Hloop; auto; rewrite Sb; lia|].
+    intros r _ Hr. eapply same_trans; [|exact Hr]. unfold same. split; [exact Ws1|auto].
+  - simpl. unfold same. split; [exact Ws1|auto].
+  - exact I.
+Qed.
+
+Lemma skipBeginAtomic_safe f s : wf s -> 1 <= pos s ->
+  safe (skipBeginAtomic nested f s) (fun r => same s (fst r)).
+Proof.
+  intros W Hp. unfold skipBeginAtomic.
+  apply (block_safe re_begin_atomic (atomic_loop nested) false EMissingBeginAtomic); auto.
+  - intros t n E. split; [eapply re_begin_word_pos; exact E|eapply re_begin_word_len; exact E].
+  - intros. apply atomic_loop_safe; auto.
+Qed.
+Lemma skipBegin_safe f s : wf s -> 1 <= pos s ->
+  safe (skipBegin o nested f s) (fun r => same s (fst r)).
+Proof.
+  intros W Hp. unfold skipBegin.
+  apply (block_safe re_begin (begin_loop o nested) (BeginEndTerminator o) EMissingBegin); auto.
+  - intros t n E. split; [eapply re_begin_pos; exact E|eapply re_begin_len; exact E].
+  - intros. apply begin_loop_safe; auto.
+Qed.
+
+Lemma after_block_safe r d op s :
+  safe r (fun x => same s (fst x)) ->
+  safe (after_block r d op) (fun st => match st with
+                                        | Continue s1 _ _ => same s s1
+                                        | Break s1 _ => same s s1
+                                        | RetEOF _ => False end).
+Proof.
+  intros Hr. unfold after_block. eapply safe_bind; [exact Hr|]. intros [s1 [e|]] _ Hs; simpl in Hs.
+  - simpl. exact Hs.
+  - pose proof Hs as ((U1 & _) & _). eapply safe_bind; [apply slice_to_safe; exact U1|]. intros t _ _. simpl. exact Hs.
+Qed.
+End NestedSafe.
+
+Section IterSafe.
+Variable o : opts.
+Variable nested : scanner -> res (scanner * option Stmt).
+Hypothesis noGo : GoCommand o = false.
+Hypothesis noTry : MatchBeginTryCatch o = false.
+
+(** how [depth] / [openingPos] evolve over one iteration *)
+Lemma stmt_iter_depth f s0 depth opos s1 d1 o1 :
+  stmt_iter o nested f s0 depth opos = Ok (Continue s1 d1 o1) ->
+  (d1 = depth /\ o1 = opos) \/
+  (d1 = depth + 1 /\ o1 = (if depth =? 0 then pos s1 else opos) /\ 1 <= pos s1) \/
+  (depth <> 0 /\ d1 = depth - 1 /\ o1 = opos).
+Proof.
+  unfold stmt_iter, after_block. intros H.
+  repeat match type of H with
+  | bind _ _ = Ok _ => let a := fresh "a" in let Ha := fresh "Ha" in apply bind_ok in H; destruct H as (a & Ha & H)
+  | (let '(_, _) := ?x in _) = Ok _ => destruct x
+  | (if ?c then _ else _) = Ok _ => destruct c eqn:?
+  | match ?x with _ => _ end = Ok _ => destruct x eqn:?
+  | fail _ _ _ = Ok _ => apply fail_not_ok in H; contradiction
+  end; try discriminate;
+  try (injection H as <- <- <-;
+       first [left; split; reflexivity
+             | right; left; split; [reflexivity|split; [reflexivity|]];
+               match goal with Hx : next _ = Ok (Some _, _) |- _ =>
+                 apply next_some in Hx as (rest & w & X1 & X2 & X3 & -> & X4);
+                 destruct (decode_rune_spec _ _ _ X3 X2) as [Xw _]; simpl; lia end
+             | right; right; bnorm; repeat split; auto]).
+Qed.
+
+Hypothesis nested_safe : forall b, wf b -> pos b = 0 -> delim b <> [] ->
+  safe (nested b) (fun r => wf (fst r) /\ src (fst r) = src b /\ pos (fst r) = 0 /\ delim (fst r) <> []).
+
+Lemma wf_skipSpaces_id s : wf s -> starts_space (input s) = false -> wf (skipSpaces s).
+Proof.
+  intros (W1 & W2 & W3) H. unfold wf, skipSpaces; simpl. rewrite (trim_left_id _ H). repeat split; lia.
+Qed.
+
+Definition step_state (st : step) : scanner :=
+  match st with Continue s _ _ => s | Break s _ => s | RetEOF s => s end.
+
+Lemma safe_const {A} (x : res A) (P : A -> Prop) : (forall a, x = Ok a -> P a) -> x <> Panic -> safe x P.
+Proof. destruct x; simpl; auto. Qed.
+
+Lemma stmt_iter_safe f s0 depth opos :
+  wf s0 -> starts_space (input s0) = false -> (0 < depth -> 0 <= opos <= zlen (input s0)) ->
+  safe (stmt_iter o nested f s0 depth opos) (fun st => wf (step_state st) /\ src (step_state st) = src s0).
+Proof.
+  intros W Hns Hop. unfold stmt_iter.
+  destruct (next_safe s0 W) as (r & s & Hn & Ws & Hsrc). rewrite Hn. cbn [bind].
+  destruct r as [c|].
+  2:{ apply next_none in Hn as [-> _]. destruct (0 <? depth) eqn:E; [bnorm; apply fail_safe; auto|].
+      destruct (0 <? pos s0); simpl; auto. }
+  pose proof (next_some _ _ _ Hn) as (rest & w & H1 & H2 & H3 & Hs & H4).
+  destruct (decode_rune_spec _ _ _ H3 H2) as (Hw & _ & _).
+  assert (pos s = pos s0 + w) as Hps by (subst s; reflexivity).
+  assert (width s = w) as Hws by (subst s; reflexivity).
+  assert (input s = input s0) as His by (subst s; reflexivity).
+  clear Hs H1 H2 H3. pose proof Ws as (V1 & V2 & V3).
+  destruct (N.eqb c 40). { simpl. auto. }
+  destruct (N.eqb c 41). { destruct (depth =? 0); [apply fail_safe; auto|simpl; auto]. }
+  destruct (N.eqb c 39 || N.eqb c 34 || N.eqb c 96).
+  { eapply safe_bind; [apply skipQuote_safe; exact Ws|]. intros s1 _ [W1 S1]. simpl. split; [exact W1|congruence]. }
+  eapply safe_bind with (P := fun b => b = true -> pos s = 1 /\ 9 < zlen (input s)).
+  { destruct ((pos s =? 1) && (zlen S_DELIMITER <? zlen (input s))) eqn:E; [|simpl; discriminate].
+    bnorm. change (zlen S_DELIMITER) with 9 in *.
+    eapply safe_bind; [apply slice_to_safe; lia|]. intros hd _ _. simpl. auto. }
+  intros isDelimCmd _ HD. destruct isDelimCmd.
+  { destruct (HD eq_refl) as [Hp1 Hl9]. change (zlen S_DELIMITER - 1) with 8.
+    assert (wf (addPos s 8)) as W8 by (apply wf_addPos; [exact Ws|lia]).
+    eapply safe_bind; [apply (delimCmd_safe o f _ W8); simpl; lia|].
+    intros s1 _ (W1 & S1 & [P1|E1]); [|subst s1]; simpl.
+    - split; [apply wf_skipSpaces; auto|simpl in S1; congruence].
+    - split; [apply wf_skipSpaces_id; [exact W8|simpl; congruence]|congruence]. }
+  clear HD. rewrite noGo. cbn [andb bind].
+  eapply safe_bind with (P := fun b => b = true -> has_prefix (skipn (Z.to_nat (pos s - width s)) (input s)) (delim s) = true).
+  { destruct (depth =? 0); [|simpl; discriminate].
+    eapply safe_bind; [apply slice_from_safe; lia|]. intros tl _ ->. simpl. auto. }
+  intros isDelim _ HD. destruct isDelim.
+  { pose proof (HD eq_refl) as Hpre. apply has_prefix_app in Hpre as [rr Hrr]. apply (f_equal zlen) in Hrr.
+    rewrite zlen_skipn, zlen_app in Hrr by lia. pose proof (zlen_nonneg rr). pose proof (zlen_nonneg (delim s)).
+    assert (wf (addPos s (zlen (delim s) - width s))) as Wd by (apply wf_addPos; [exact Ws|lia]).
+    eapply safe_bind; [apply slice_to_safe; apply Wd|]. intros t _ _. simpl. split; [exact Wd|exact Hsrc]. }
+  clear HD.
+  eapply safe_bind with (P := fun _ => True).
+  { destruct (MatchDollarQuote o && N.eqb c 36); [|exact I].
+    eapply safe_bind; [apply slice_from_safe; lia|]. intros; exact I. }
+  intros isDollar _ _. destruct isDollar.
+  { eapply safe_bind; [apply skipDollarQuote_safe; [exact Ws|lia]|]. intros s1 _ [W1 S1]. simpl. split; [exact W1|congruence]. }
+  destruct (N.eqb c 35 && HashComments o).
+  { eapply safe_bind; [apply comment_safe; exact Ws|]. intros s1 _ [W1 S1]. simpl. split; [exact W1|congruence]. }
+  eapply safe_bind with (P := fun _ => True).
+  { destruct (N.eqb c 45); [|exact I]. destruct (pick_safe s Ws) as (p & ->). exact I. }
+  intros p1 _ _. destruct (N.eqb c 45 && rune_is p1 45).
+  { destruct (next_safe s Ws) as (r2 & s2 & Hn2 & W2 & Hsrc2). rewrite Hn2. cbn [bind snd].
+    eapply safe_bind; [apply comment_safe; exact W2|]. intros s1 _ [W1 S1]. simpl. split; [exact W1|congruence]. }
+  eapply safe_bind with (P := fun _ => True).
+  { destruct (N.eqb c 47); [|exact I]. destruct (pick_safe s Ws) as (p & ->). exact I. }
+  intros p2 _ _. destruct (N.eqb c 47 && rune_is p2 42).
+  { destruct (next_safe s Ws) as (r2 & s2 & Hn2 & W2 & Hsrc2). rewrite Hn2. cbn [bind snd].
+    eapply safe_bind; [apply comment_safe; exact W2|]. intros s1 _ [W1 S1]. simpl. split; [exact W1|congruence]. }
+  eapply safe_bind with (P := fun _ => True).
+  { destruct (endterm s); [|exact I]. eapply safe_bind; [apply slice_to_safe; lia|]. intros; exact I. }
+  intros isEndTerm _ _. destruct isEndTerm.
+  { eapply safe_bind; [apply slice_to_safe; lia|]. intros t _ _. simpl. auto. }
+  eapply safe_bind with (P := fun _ => True).
+  { destruct (_ && _); [|exact I]. eapply safe_bind; [apply slice_from_safe; lia|]. intros; exact I. }
+  intros isAtomic _ _. destruct isAtomic.
+  { eapply safe_weaken; [apply (after_block_safe _ _ _ s); apply (skipBeginAtomic_safe o nested nested_safe noGo noTry); auto; lia|].
+    intros [s1 d1 o1|s1 t|s1] _ Hsame; simpl in *; try contradiction;
+      destruct Hsame as (U1 & U2 & _); (split; [exact U1|congruence]). }
+  rewrite noTry, andb_false_r. cbn [bind].
+  eapply safe_bind with (P := fun _ => True).
+  { destruct (_ && _); [|exact I]. destruct (pos s =? 1).
+    - eapply safe_bind; [apply slice_from_safe; lia|]. intros; exact I.
+    - destruct (1 <? pos s) eqn:E; [|exact I]. bnorm. eapply safe_bind; [apply slice_from_safe; lia|]. intros; exact I. }
+  intros isBegin _ _. destruct isBegin; [|simpl; auto].
+  eapply safe_weaken; [apply (after_block_safe _ _ _ s); apply (skipBegin_safe o nested nested_safe noGo noTry); auto; lia|].
+  intros [s1 d1 o1|s1 t|s1] _ Hsame; simpl in *; try contradiction;
+    destruct Hsame as (U1 & U2 & _); (split; [exact U1|congruence]).
+Qed.
+End IterSafe.
+
+
+Section StmtSafe.
+Variable o : opts.
+Hypothesis noGo : GoCommand o = false.
+Hypothesis noTry : MatchBeginTryCatch o = false.
+
+Definition SafeRes (s : scanner) (r : scanner * option Stmt) : Prop :=
+  wf (fst r) /\ src (fst r) = src s /\ pos (fst r) = 0 /\ delim (fst r) <> [].
+
+Section Loop.
+Variable nested : scanner -> res (scanner * option Stmt).
+Hypothesis nested_mono : forall b b' r, pos b = 0 -> delim b <> [] -> nested b = Ok (b', r) ->
+  total b <= total b' /\ pos b' = 0 /\ delim b' <> [].
+Hypothesis nested_safe : forall b, wf b -> pos b = 0 -> delim b <> [] -> safe (nested b) (SafeRes b).
+
+Lemma stmt_loop_safe lf : forall s d op,
+  wf s -> starts_space (input s) = false -> delim s <> [] -> 0 <= d -> (0 < d -> 1 <= op <= pos s) ->
+  safe (stmt_loop o nested lf s d op) (SafeRes s).
+Proof.
+  induction lf as [|lf IH]; intros s d op W Hns Hd Hd0 Hop; simpl; [exact I|].
+  pose proof W as (W1 & W2 & W3).
+  eapply safe_bind; [apply (stmt_iter_safe o nested noGo noTry nested_safe lf s d op W Hns); intros; lia|].
+  intros st Hst (Wst & Sst).
+  pose proof (stmt_iter_spec o nested nested_mono noGo noTry _ _ _ _ _ Hst Hns Hd) as Hit.
+  destruct st as [s1 d1 o1|s1 text|s1]; simpl in Wst, Sst.
+  - pose proof (stmt_iter_depth o nested noGo noTry _ _ _ _ _ _ _ Hst) as Hdep.
+    assert (input s1 = input s /\ delim s1 = delim s /\ pos s < pos s1 \/
+            starts_space (input s1) = false /\ delim s1 <> [] /\ pos s1 = 0 /\ pos s = 0) as Hcase.
+    { destruct Hit as [[(A1 & A2 & _ & _) Hlt]|[(S1 & S2 & S3 & _) [Hp0 _]]]; [left; auto|right; auto]. }
+    eapply safe_weaken.
+    + apply IH; auto.
+      * destruct Hcase as [(E1 & _ & _)|(E1 & _)]; [rewrite E1; exact Hns|exact E1].
+      * destruct Hcase as [(_ & E2 & _)|(_ & E2 & _)]; [rewrite E2; exact Hd|exact E2].
+      * destruct Hdep as [[-> _]|[[-> _]|(Hne & -> & _)]]; lia.
+      * destruct Hdep as [[-> ->]|[(-> & -> & Hp1)|(Hne & -> & ->)]]; intros Hpos.
+        -- destruct Hcase as [(_ & _ & ?)|(_ & _ & ? & ?)]; lia.
+        -- destruct (d =? 0) eqn:E0; bnorm; [lia|]. destruct Hcase as [(_ & _ & ?)|(_ & _ & ? & ?)]; lia.
+        -- destruct Hcase as [(_ & _ & ?)|(_ & _ & ? & ?)]; lia.
+    + intros r _ (R1 & R2 & R3 & R4). unfold SafeRes. split; [exact R1|split; [congruence|split; [exact R3|exact R4]]].
+  - destruct Hit as ((A1 & A2 & _ & _) & _).
+    eapply safe_bind; [apply emit_safe; exact Wst|]. intros es _ (E1 & E2 & E3 & E4). simpl.
+    unfold SafeRes; simpl. split; [exact E1|split; [simpl in E2; congruence|split; [exact E3|rewrite E4, A2; exact Hd]]].
+  - destruct Hit as ((A1 & A2 & _ & _) & Hl). simpl. unfold SafeRes; simpl.
+    split; [exact Wst|split; [exact Sst|split; [destruct Wst as (U1 & _); lia|rewrite A2; exact Hd]]].
+Qed.
+End Loop.
+
+Lemma stmt_safe f : forall s, wf s -> pos s = 0 -> delim s <> [] -> safe (stmt o f s) (SafeRes s).
+Proof.
+  induction f as [|f IH]; intros s W Hp Hd; [exact I|]. cbn [stmt].
+  destruct (trim_left_decomp (input s)) as (sp & Hsp & Hsp2 & Hsp3).
+  eapply safe_weaken.
+  - apply (stmt_loop_safe (stmt o f)).
+    + intros b b' r. apply (stmt_mono o noGo noTry).
+    + exact IH.
+    + apply wf_skipSpaces; auto.
+    + exact Hsp3.
+    + exact Hd.
+    + lia.
+    + lia.
+  - intros r _ (R1 & R2 & R3 & R4). unfold SafeRes. split; [exact R1|split; [exact R2|split; [exact R3|exact R4]]].
+Qed.
+
+Lemma scan_loop_safe f : forall s acc, wf s -> pos s = 0 -> delim s <> [] -> safe (scan_loop o f s acc) (fun _ => True).
+Proof.
+  induction f as [|f IH]; intros s acc W Hp Hd; [exact I|]. cbn [scan_loop].
+  eapply safe_bind; [apply stmt_safe; auto|]. intros [s1 [st|]] _ (R1 & R2 & R3 & R4); simpl in *; [|exact I].
+  apply IH; auto.
+Qed.
+
+Theorem Scan_no_panic fuel inp : Scan o fuel inp <> Panic.
+Proof.
+  unfold Scan. intros H.
+  assert (safe (do s <- init (new_scanner false) inp; scan_loop o fuel s []) (fun _ => True)) as Hs.
+  { eapply safe_bind; [apply init_safe|]. intros s _ (W & P & _ & D). apply scan_loop_safe; auto. }
+  rewrite H in Hs. exact Hs.
+Qed.
+End StmtSafe.
